@@ -173,6 +173,25 @@ var c19Placements = []string{"hdr-OAuth2", "hdr-Bearer", "hdr-Basic", "query", "
 type c19Placed struct {
 	tok   c19.Token
 	place string
+	// query / form placements: how the parameter NAME is spelled on the wire
+	// ("" = api_token; else a partly percent-encoded spelling of it), and
+	// whether the parameter goes before the other parameters.
+	name  string
+	first bool
+}
+
+// c19ParamSpellings: the name api_token as a client (or a URL-rewriting
+// middlebox) may percent-encode it; every HTTP server decodes them alike.
+var c19ParamSpellings = []string{"api%5Ftoken", "api_toke%6E", "%61pi_token", "api%5ftoken", "a%70i_t%6Fken", "%61%70%69%5F%74%6F%6B%65%6E"}
+
+// c19Join adds the specially spelled parameters to an encoded query / form.
+func c19Join(encoded string, front, back []string) string {
+	parts := append([]string(nil), front...)
+	if encoded != "" {
+		parts = append(parts, encoded)
+	}
+	parts = append(parts, back...)
+	return strings.Join(parts, "&")
 }
 
 type c19Route struct {
@@ -252,7 +271,25 @@ func c19Build(route c19Route, placed []c19Placed, reqid string) (*http.Request, 
 	}
 	hdr := http.Header{}
 	var cookies []*http.Cookie
+	var qFront, qBack, fFront, fBack []string
 	for _, p := range placed {
+		if p.name != "" && (p.place == "query" || p.place == "form") {
+			if dec, err := url.QueryUnescape(p.name); err != nil || dec != "api_token" {
+				return nil, fmt.Errorf("VERIF-INFRA: parameter spelling %q does not decode to api_token", p.name)
+			}
+			kv := p.name + "=" + url.QueryEscape(p.tok.Raw)
+			switch {
+			case p.place == "query" && p.first:
+				qFront = append(qFront, kv)
+			case p.place == "query":
+				qBack = append(qBack, kv)
+			case p.first:
+				fFront = append(fFront, kv)
+			default:
+				fBack = append(fBack, kv)
+			}
+			continue
+		}
 		switch p.place {
 		case "hdr-OAuth2":
 			hdr.Set("Authorization", "OAuth2 "+p.tok.Raw)
@@ -271,21 +308,22 @@ func c19Build(route c19Route, placed []c19Placed, reqid string) (*http.Request, 
 		}
 	}
 	target := "http://controller.c19.example" + route.path
-	if len(query) > 0 {
-		target += "?" + query.Encode()
+	if q := c19Join(query.Encode(), qFront, qBack); q != "" {
+		target += "?" + q
 	}
+	formEnc := c19Join(form.Encode(), fFront, fBack)
 	var body io.Reader
 	switch {
 	case !route.hasBody:
 	case route.framing == "empty-body":
-		if len(form) > 0 {
+		if formEnc != "" {
 			return nil, errors.New("VERIF-INFRA: form parameters in an empty-body request")
 		}
 		body = strings.NewReader("")
 	case route.framing == "chunked":
-		body = &c19Pieces{data: []byte(form.Encode()), sizes: route.chunks}
+		body = &c19Pieces{data: []byte(formEnc), sizes: route.chunks}
 	default:
-		body = strings.NewReader(form.Encode())
+		body = strings.NewReader(formEnc)
 	}
 	out, err := http.NewRequest(route.method, target, body)
 	if err != nil {
@@ -419,6 +457,14 @@ func TestVerifC19LegacyHandler(t *testing.T) {
 				places = append(places, "form", "form", "form")
 			}
 		}
+		// Round 3: some requests also carry a reader_tokens parameter (a JSON
+		// list; its content here is no user secret: a token of the remote's own,
+		// already salted). It rides in the query, or in the body when there is one.
+		readerTokens := false
+		if rb := rapid.SliceOfN(rapid.Bool(), 2, 2).Draw(t, "readerTokens"); rb[0] && rb[1] {
+			readerTokens = true
+			route.form["reader_tokens"] = []string{`["v2/` + remote + `-gj3su-readertoken0000/0123456789abcdef0123456789abcdef01234567"]`}
+		}
 		var tokens []c19.Token
 		if rapid.IntRange(0, 19).Draw(t, "noToken") != 0 {
 			tokens = c19.DrawTokens(t, owners, "tok")
@@ -462,8 +508,25 @@ func TestVerifC19LegacyHandler(t *testing.T) {
 				table[tk.Raw] = res[i]
 				ctlTable[ctl.Raw] = res[i]
 			}
-			placed = append(placed, c19Placed{tk, place})
-			ctlPlaced = append(ctlPlaced, c19Placed{ctl, place})
+			// Round 3: in the query string / form body the parameter name is
+			// partly percent-encoded in about 3 of 8 such placements
+			spelled, first := "", false
+			if place == "query" || place == "form" {
+				sb := rapid.SliceOfN(rapid.Bool(), 6, 6).Draw(t, fmt.Sprintf("paramName%d", i))
+				if sb[0] && (sb[1] || sb[2]) {
+					k := 0
+					for _, b := range sb[3:] {
+						k <<= 1
+						if b {
+							k |= 1
+						}
+					}
+					spelled = c19ParamSpellings[k%len(c19ParamSpellings)]
+					first = rapid.Bool().Draw(t, fmt.Sprintf("paramFirst%d", i))
+				}
+			}
+			placed = append(placed, c19Placed{tk, place, spelled, first})
+			ctlPlaced = append(ctlPlaced, c19Placed{ctl, place, spelled, first})
 		}
 		env.seq++
 		reqid := fmt.Sprintf("req-c19verif%09d", env.seq)
@@ -488,7 +551,22 @@ func TestVerifC19LegacyHandler(t *testing.T) {
 		}
 
 		labels := []string{"route=" + route.name, fmt.Sprintf("tokens=%d", len(tokens)), "framing=" + route.framing}
+		if readerTokens {
+			labels = append(labels, "with-reader_tokens")
+		}
 		for _, p := range placed {
+			if p.name != "" {
+				hdrToo := "without-authorization-header"
+				for _, q := range placed {
+					if strings.HasPrefix(q.place, "hdr-") {
+						hdrToo = "with-authorization-header"
+					}
+				}
+				labels = append(labels, "param-name-percent-encoded/"+p.place, "param-name-percent-encoded/"+hdrToo, "param-name-percent-encoded/tok:"+p.tok.Kind.String())
+				if readerTokens {
+					labels = append(labels, "param-name-percent-encoded/with-reader_tokens")
+				}
+			}
 			if p.place == "form" && route.framing != "content-length" {
 				labels = append(labels, "framing="+route.framing+"+token-in-form-body")
 			}
@@ -498,7 +576,11 @@ func TestVerifC19LegacyHandler(t *testing.T) {
 		var legit []string
 		mustForward := true
 		for i, p := range placed {
-			raws = append(raws, p.place+":"+p.tok.Raw)
+			if p.name != "" {
+				raws = append(raws, fmt.Sprintf("%s(name spelled %s, first=%v):%s", p.place, p.name, p.first, p.tok.Raw))
+			} else {
+				raws = append(raws, p.place+":"+p.tok.Raw)
+			}
 			effRes := res[i]
 			if effRes.Status == 403 {
 				// in a database, "valid but scope-restricted" is a row like any
@@ -690,6 +772,11 @@ func TestVerifC19LegacyHandler(t *testing.T) {
 		}
 		if len(caps) > 0 {
 			labels = append(labels, "forwarded/framing="+route.framing)
+			for _, p := range placed {
+				if p.name != "" {
+					labels = append(labels, "forwarded/param-name-percent-encoded/"+p.place)
+				}
+			}
 		}
 		stats.Case(stats.FP("legacy", raws, ids, res, route.name, route.framing, route.chunks), nontrivial && len(caps) > 0, labels...)
 		stats.InfoAdd("raw_requests_scanned", int64(len(caps)))
